@@ -26,11 +26,12 @@ inductive IdleLet
 /-- one conjunct of the expression `Kanata::can_block_update_idle_waiting` returns -/
 inductive BlockTag
   | cbIsIdle | cbNotCountingIdleTicks | cbPassedMaxSwitchTiming | cbChordsV2Accepts
+  | cbNotRecordingDynMacro     -- fix ccfb98e: no dynamic macro is being recorded
   deriving DecidableEq, Repr, Inhabited
 
 /-- the statements in front of it -/
 inductive BlockLet
-  | cbLetIsIdle | cbLetCounting | cbUpdateTicksSinceIdle | cbLetPassed | cbLetChordsV2
+  | cbLetIsIdle | cbLetCounting | cbUpdateTicksSinceIdle | cbLetPassed | cbLetChordsV2 | cbLetRecording
   deriving DecidableEq, Repr, Inhabited
 
 end KVerif.K
